@@ -25,7 +25,7 @@ META = dict(
          "shifted too), joint data+span shifts (gross/valid range), reversal (spike) - flags must be identical (reversed "
          "for reversal); and under EVERY single-point perturbation (each position x each other symbol incl. missing) - "
          "flags outside the statement's neighbourhood must be unchanged. states = executions, transitions = "
-         "Scale: 1500-point records with offsets 2^30 / -2^31 and perturbations at block-edge positions; a 4000-point plateau record with flat-line windows of 300 / 600 samples. (base, transformed) pairs compared. non-trivial = transformed execution (not the base run)",
+         "(base, transformed) pairs compared. Scale: 1500-point records with offsets 2^30 / -2^31 and perturbations at block-edge positions; a 4000-point plateau record with flat-line windows of 300 / 600 samples. non-trivial = transformed execution (not the base run)",
     bounds={"quick": {"max_len": 4}, "thorough": {"max_len": 5}},
     not_judged=["std-based attenuation cases whose spread is within 1e-6 of a threshold (float std is only approximately shift invariant)",
                 "whole-series attenuated_signal_test locality (not local by definition)"],
